@@ -350,6 +350,17 @@ def header_case(dt, idxs, vlevel, via):
       hd.add("xx", v, dt)
     texts = [str(hd)]
     tags = str(hd).split("\t")[1:]
+  elif via == "add-nodt":
+    # the first value defines the tag with its declared datatype (as a parsed
+    # H line does); further values are added without naming the datatype
+    # again: the tag keeps the declared datatype
+    hd = gfapy.Line("H", vlevel=vlevel)
+    hd.set_datatype("xx", dt)
+    hd.set("xx", vals[0])
+    for v in vals[1:]:
+      hd.add("xx", v)
+    texts = [str(hd)]
+    tags = str(hd).split("\t")[1:]
   else:
     g = gfapy.Gfa(vlevel=vlevel)
     for v in vals:
@@ -374,7 +385,7 @@ def work_headers(chunk):
   found = {}
   for dt, idxs in chunk:
     for vlevel in (0, 1, 2, 3):
-      for via in ("add", "merge"):
+      for via in ("add", "add-nodt", "merge"):
         res["evaluations"] += 1
         res["transitions"] += 1
         res["traces"] += 1
@@ -439,6 +450,143 @@ def work(chunk):
   return res
 
 
+# ---------------------------------------------------------------------------
+# histories on one tag name: a deleted tag is gone, datatype included -- a tag
+# set afterwards under the same name is a NEW tag and must come out exactly as
+# on a line that never had the old one (differential oracle, no expected text)
+
+HIST_VALUES = [("int", 12), ("float", 1.5), ("str", "hello world"),
+               ("json", {"a": [1, 2]}), ("intlist", [1, 2, 300]),
+               ("floatlist", [1.5, 2.0]), ("bytes", "1AF0"), ("char", "x")]
+HIST_FIRST_DT = [None, "A", "i", "f", "Z", "J", "H", "B"]
+# (assigning None also removes the tag, but keeps a datatype declared with
+# set_datatype -- a declaration may precede the value, so whether it outlives
+# the value is left open: only delete() is judged)
+HIST_PROGRAMS = ("set,delete,set", "parsed,delete,set",
+                 "set,delete,set,delete,set")
+
+
+def _hv(kind, d):
+  return gfapy.ByteArray(d) if kind == "bytes" else d
+
+
+def hist_cases():
+  out = []
+  for prog in HIST_PROGRAMS:
+    for i, (k1, d1) in enumerate(HIST_VALUES):
+      for dt1 in HIST_FIRST_DT:
+        for j, (k2, d2) in enumerate(HIST_VALUES):
+          out.append((prog, i, dt1, j))
+  return out
+
+
+def _tag_state(line, name):
+  try:
+    t = line.field_to_s(name, tag=True)
+  except gfapy.Error as e:
+    t = "<{}>".format(type(e).__name__)
+  try:
+    dt = line.get_datatype(name)
+  except gfapy.Error as e:
+    dt = "<{}>".format(type(e).__name__)
+  return (t, dt, str(line))
+
+
+def hist_case(prog, i, dt1, j, version, host, vlevel):
+  """None (out of scope: the first assignment is refused) or list of
+  (clause, detail)."""
+  name = "xx"
+  k1, d1 = HIST_VALUES[i]
+  k2, d2 = HIST_VALUES[j]
+  fresh = gfapy.Line(host, vlevel=vlevel, version=version)
+  try:
+    fresh.set(name, _hv(k2, d2))
+    want = _tag_state(fresh, name)
+  except gfapy.Error as e:
+    want = ("<{}>".format(type(e).__name__),) * 3
+  steps = prog.split(",")
+  if steps[0] == "parsed":
+    # the old tag comes from the text of the line
+    if dt1 is None:
+      return None
+    probe = gfapy.Line(host, vlevel=1, version=version)
+    try:
+      probe.set_datatype(name, dt1)
+      probe.set(name, _hv(k1, d1))
+      text = str(probe)
+      if "INVALID" in text:
+        return None
+      line = gfapy.Line(text, vlevel=vlevel, version=version)
+    except gfapy.Error:
+      return None
+    steps = steps[1:]
+  else:
+    line = gfapy.Line(host, vlevel=vlevel, version=version)
+    try:
+      if dt1 is not None:
+        line.set_datatype(name, dt1)
+      line.set(name, _hv(k1, d1))
+      line.field_to_s(name, tag=True)
+    except gfapy.Error:
+      return None
+    steps = steps[1:]
+  try:
+    nset = 0
+    for st in steps:
+      if st == "delete":
+        line.delete(name)
+      elif st == "none":
+        line.set(name, None)
+      elif st == "set":
+        nset += 1
+        last = (nset == steps.count("set"))
+        line.set(name, _hv(k2, d2) if last else _hv(k1, d1))
+    got = _tag_state(line, name)
+  except gfapy.Error as e:
+    got = ("<{}>".format(type(e).__name__),) * 3
+  if got != want:
+    return [("deleted-tag-leaves-trace",
+             "after {} the tag reads {!r} (datatype {}), on a fresh line {!r} "
+             "(datatype {})".format(prog, got[0], got[1], want[0], want[1]))]
+  return []
+
+
+def work_hist(chunk):
+  res = new_result()
+  found = {}
+  for prog, i, dt1, j in chunk:
+    for version, host in HOSTS:
+      for vlevel in (0, 1, 2, 3):
+        res["evaluations"] += 1
+        res["transitions"] += len(prog.split(","))
+        res["traces"] += 1
+        try:
+          with guard(3.0):
+            probs = hist_case(prog, i, dt1, j, version, host, vlevel)
+        except HarnessTimeout:
+          probs = [("timeout", "")]
+        except Exception as e:
+          probs = [("foreign-exception", type(e).__name__)]
+        if probs is None:
+          res["outcomes"].add("hist:first-assignment-refused")
+          continue
+        res["outcomes"].add("hist:{}".format("ok" if not probs else probs[0][0]))
+        res["states"].add(h(("hist", prog, i, dt1, j)))
+        if i != j:
+          res["nontrivial"].add(h(("hist", prog, i, dt1, j)))
+        for cl, det in probs:
+          k = (cl, "history", prog)
+          w = {"kind": "history", "value": [prog, i, dt1, j], "dt": dt1,
+               "name": "xx", "version": version, "host": host,
+               "vlevel": vlevel, "clause": cl}
+          size = (i + j, repr(dt1), vlevel, host)
+          old = found.get(k)
+          if old is None or size < old[0]:
+            found[k] = (size, w, det)
+  res["found"] = found
+  return res
+
+
 def chunks(lst, n):
   for i in range(0, len(lst), n):
     yield lst[i:i + n]
@@ -478,7 +626,19 @@ def run(ctx):
       if old is None or size < old[0]:
         found_all[k] = (size, w, det)
     ctx.merge(r)
-  ctx.bound_completed = {"values": len(menu), "header_multi_value_cases": len(hc)}
+  hs = hist_cases()
+  for r in ctx.pmap(work_hist, list(chunks(hs, 64)), chunksize=1):
+    f = r.pop("found")
+    for k, (size, w, det) in f.items():
+      old = found_all.get(k)
+      if old is None or size < old[0]:
+        found_all[k] = (size, w, det)
+    ctx.merge(r)
+  ctx.alphabet["tag_histories"] = {
+      "programs": list(HIST_PROGRAMS), "values": [repr(v) for _, v in HIST_VALUES],
+      "first_datatype": [str(x) for x in HIST_FIRST_DT]}
+  ctx.bound_completed = {"values": len(menu), "header_multi_value_cases": len(hc),
+                         "tag_histories": len(hs)}
   for m in menu[:2] + menu[60:62] + menu[-3:]:
     ctx.sample({"kind": m[0], "value": m[1]})
   for k, (size, w, det) in sorted(found_all.items()):
@@ -489,6 +649,13 @@ def run(ctx):
 
 
 def replay(w, ctx):
+  if w["kind"] == "history":
+    prog, i, dt1, j = w["value"]
+    try:
+      probs = hist_case(prog, i, dt1, j, w["version"], w["host"], w["vlevel"])
+    except Exception as e:
+      probs = [("foreign-exception", type(e).__name__)]
+    return [mkviolation(cl, vkey(w), w, "", det, "") for cl, det in probs or []]
   if w["kind"] == "header":
     try:
       probs = header_case(w["dt"], w["value"], w["vlevel"], w["host"])
